@@ -99,13 +99,16 @@ def cases(tier, seed):
     n = 260 if tier == "quick" else 3000
     for c in CORPUS:
         yield dict(c, kind="prog", profile="default", origin="corpus")
+    for c in CORPUS_REBIND:
+        for prof in ("default", "fast"):
+            yield dict(c, kind="prog", profile=prof, origin="corpus")
     for i in range(n):
         yield dict(sig_program(rng, 10 if tier == "quick" else 13), kind="prog", profile="default" if i % 4 else "fast", origin="signature")
     from ..gen import programs as P
 
     pg = P.PG(rng, P.small_cfg(max_bits=8))
     for i in range(n // 3):
-        yield dict(pg.program(), kind="prog", profile="default", origin="core")
+        yield dict(pg.program(), kind="prog", profile="fast" if i % 2 else "default", origin="core")
 
 
 CORPUS = [
@@ -115,6 +118,16 @@ CORPUS = [
     {"src": "def f(a: Qfixed[1, 2]) -> Qfixed[1, 2]:\n    return a\n", "args": [["a", "Qfixed1_2"]], "ret": "Qfixed1_2"},
     {"src": "def f(a: Qchar) -> Qchar:\n    return a\n", "args": [["a", "Qchar"]], "ret": "Qchar"},
     {"src": "def f(a: bool, b: bool) -> Tuple[bool, bool]:\n    return (a, a)\n", "args": [["a", "bool"], ["b", "bool"]], "ret": ["bool", "bool"]},
+]
+
+
+# arguments rebound in the body (their names then also name an intermediate of the expression list)
+CORPUS_REBIND = [
+    {"src": "def f(a: bool, b: bool) -> bool:\n    a = a and b\n    return a ^ b\n", "args": [["a", "bool"], ["b", "bool"]], "ret": "bool"},
+    {"src": "def f(a: Qint[2], b: Qint[2]) -> Qint[2]:\n    a = a + b\n    return a ^ b\n", "args": [["a", "Qint2"], ["b", "Qint2"]], "ret": "Qint2"},
+    {"src": "def f(t: Tuple[bool, bool], c: bool) -> Tuple[bool, bool]:\n    t = (t[1] and c, t[0])\n    return t\n", "args": [["t", ["bool", "bool"]], ["c", "bool"]], "ret": ["bool", "bool"]},
+    {"src": "def f(s: Qint[2], l: Qlist[Qint[2], 2]) -> Qint[2]:\n    for x in l:\n        s = s + x\n    return s\n", "args": [["s", "Qint2"], ["l", ["Qint2", "Qint2"]]], "ret": "Qint2"},
+    {"src": "def f(a: bool, b: bool, c: bool) -> Tuple[bool, bool]:\n    b = not b\n    a = a or b\n    return (a, b and c)\n", "args": [["a", "bool"], ["b", "bool"], ["c", "bool"]], "ret": ["bool", "bool"]},
 ]
 
 
